@@ -6,6 +6,8 @@ import (
 	"strings"
 
 	"golang.org/x/tools/go/ssa"
+
+	"gzverify/px"
 )
 
 // c15users (R6, round 4): the in-tree plumbing that turns configured weights into virtual nodes keeps the ring's
@@ -162,5 +164,38 @@ func c15pureHash(c *Ctx) {
 			}
 		}
 		c.R.Check(uses, rule, hashPkg+".NewCustomConsistentHash#default", "a ring built without a hash function uses hash.Hash", posOf(c, g), "the default hash function is not hash.Hash: its purity is not checked", nil, 1)
+	}
+}
+
+// c15injectiveNames (R8, round 5): two different (node, replica) pairs get different virtual-node names. The name is
+// the concatenation of two variable-length strings — the node's representation and the decimal replica index — so a
+// non-empty constant must stand between them: without one, "h:1"+"10" and "h:11"+"0" are the same name, nodes whose
+// representations are prefix-related share virtual nodes, the owner of a shared slot depends on insertion order, and
+// removing one node deletes virtual nodes of the other ("removing a node only moves keys that were on it" fails).
+func c15injectiveNames(c *Ctx) {
+	rule := "C15.R8"
+	f := c.fn(rule, hashPkg, "(*ConsistentHash).AddWithReplicas")
+	if f == nil {
+		return
+	}
+	ps := c.paths(rule, f, px.Config{MaxVisits: 2})
+	isRepr := func(s *px.Sym) bool {
+		s = s.Strip(false)
+		return s != nil && s.Kind == px.KCall && s.Call != nil && s.Call.Static != nil && s.Call.Static.Name() == "repr"
+	}
+	seen := 0
+	c.forall(rule, hashPkg+".(*ConsistentHash).AddWithReplicas#names", "the name a virtual node is hashed from separates the node's representation from the replica index by a non-empty constant (the encoding of (node, replica) is injective)", f, ps, func(p *px.Path) (bool, string) {
+		for i := range p.Events {
+			if _, sep, ok := c15vnodeName(p, &p.Events[i], isRepr); ok {
+				seen++
+				if !sep {
+					return false, "the virtual-node name is repr(node) immediately followed by the replica index: \"h:1\"+\"10\" and \"h:11\"+\"0\" are the same name, so prefix-related nodes share virtual nodes — the slot's owner depends on insertion order, and Remove(\"h:1\") walks indices 10…19 and deletes virtual nodes of \"h:11\""
+				}
+			}
+		}
+		return true, ""
+	})
+	if seen == 0 {
+		c.R.Undecided(rule, hashPkg+".(*ConsistentHash).AddWithReplicas#names-seen", "the virtual-node name derivation is recognised", "no hashFunc(repr+index) call on any path")
 	}
 }
